@@ -48,7 +48,17 @@ fn convert_w(src_kind: CompKind, dst_kind: CompKind, nc: usize, vals: &[f64], wi
         }
     }
     let mut dst = Image::new(iw as u32, ih as u32, kind_pt(dst_kind, nc));
-    fr::change_type_of_pixel_components(&src, &mut dst).map_err(|e| format!("{:?}", e))?;
+    // narrow (non-square) images alternate between an owned Image and a borrowed ImageRef over the same bytes as the source
+    let r = if width != 0 && width % 2 == 1 {
+        // Image::new over-aligns its buffer (checked by its constructor), so the bytes are aligned for ImageRef as well
+        match ImageRef::new(iw as u32, ih as u32, src.buffer(), kind_pt(src_kind, nc)) {
+            Ok(sref) => fr::change_type_of_pixel_components(&sref, &mut dst),
+            Err(e) => return Err(format!("ImageRef::new over the buffer of an Image: {:?}", e)),
+        }
+    } else {
+        fr::change_type_of_pixel_components(&src, &mut dst)
+    };
+    r.map_err(|e| format!("{:?}", e))?;
     let b = dst.buffer();
     Ok((0..n)
         .map(|i| match dst_kind {
